@@ -254,6 +254,11 @@ class ModbusDisconnectedRequestHandler(ModbusBaseRequestHandler):
                     _logger.debug('Handling data: ' + hexlify_packets(data))
                 # if not self.server.control.ListenOnly:
                 units = self.server.context.slaves()
+                if not isinstance(units, (list, tuple)):
+                    units = [units]
+                if self.server.broadcast_enable:
+                    if 0 not in units:
+                        units.append(0)
                 single = self.server.context.single
                 self.framer.processIncomingPacket(data, self.execute,
                                                   units, single=single)
